@@ -1530,7 +1530,20 @@ func cliOptionFlags(r *Rng, c *cliCfg) GenCfg {
 
 func (c *cliCfg) docText(r *Rng, v *Val) string {
 	if c.Yaml {
-		return cliYAML(v, r.Chance(2, 3))
+		t := cliYAML(v, r.Chance(2, 3))
+		if r.Chance(1, 4) {
+			// the whole document indented: leading white space is significant in YAML (an input that is
+			// trimmed on one path — stdin, say — and not on the other reads differently)
+			ls := strings.Split(strings.TrimRight(t, "\n"), "\n")
+			for i := range ls {
+				ls[i] = "  " + ls[i]
+			}
+			t = strings.Join(ls, "\n") + "\n"
+		}
+		return t
+	}
+	if r.Chance(1, 6) {
+		return " \n\t" + cliJSON(v) + "\n \n"
 	}
 	return cliJSON(v)
 }
@@ -1929,7 +1942,7 @@ func propC14(run *Run, n int) {
 
 func init() {
 	props["C14"] = propC14
-	quickN["C14"] = 300
+	quickN["C14"] = 900
 	thoroughN["C14"] = 6000
 	recipes["c14"] = func(run *Run, a []string) {
 		var c cliCfg
